@@ -37,6 +37,10 @@ inductive Target where
   | slice (n : Nat)
   /-- `GcStr::new_str(mc, s)` with `s.len() = n`: `GcFat<str, (), StrPtrMeta>`. -/
   | str (n : Nat)
+  /-- `GcSliceWithHeaderBuilder::<H, E>::new(n)…`: `GcFat<SliceWithHeader<H, E>, (),
+      SliceWithHeaderPtrMeta>` — a header value followed by `n` elements; the thin
+      representation points at the header (`Thin = H`). -/
+  | swh (n : Nat)
   /-- As `sized`, but the chain starts from `unsize!(Gc::new(..) => dyn Tr)`. -/
   | dyn
   /-- `Gc::new(mc, Z)` with `size_of::<Z>() = 0`, `align_of::<Z>() = align`: an ordinary block. -/
@@ -59,33 +63,37 @@ inductive Ty where
 
 /-- Metadata carried in the pointer itself. -/
 inductive Meta where
-  | none | len (n : Nat) | vtable
+  | none
+  | len (n : Nat)
+  /-- vtable of the trait impl of one concrete type, identified by the description of that
+      type (set by `unsize!` from the source's static type) -/
+  | vtable (of : Target)
   deriving DecidableEq, Repr, Inhabited
 
 namespace Target
 
 /-- `T: Sized` for the allocated type. -/
 def isSized : Target → Bool
-  | .slice _ | .str _ => false
+  | .slice _ | .str _ | .swh _ => false
   | _ => true
 
 /-- The `P` the allocation was made with. -/
 def pmeta : Target → PMeta
-  | .slice _ => .slice
+  | .slice _ | .swh _ => .slice
   | .str _ => .str
   | _ => .unit
 
 /-- The per-value metadata written into the header by `GcPtr::alloc` (`P::PtrMetadata`): the
     length for `SlicePtrMeta` / `StrPtrMeta`, `()` otherwise. -/
 def hdrLen : Target → Option Nat
-  | .slice n | .str n => some n
+  | .slice n | .str n | .swh n => some n
   | _ => none
 
 /-- Number of destructor runs of the *original type's* tag that destructing the value logs:
     one per struct, one per element, none for `str` bytes and for the cache's `AlignedType`. -/
 def dropsAtDestruct : Target → Nat
   | .sized | .dyn | .zst _ => 1
-  | .array n | .slice n => n
+  | .array n | .slice n | .swh n => n
   | .str _ | .zcached _ _ => 0
 
 /-- Destructor runs logged by the allocating call itself: `ZstCache::alloc` takes the value by
@@ -128,12 +136,12 @@ def fatMeta (t : Target) : Ty → Meta
     | none => .none
   | .uns => match t with
     | .array n => .len n
-    | _ => .vtable
+    | _ => .vtable t
 
 /-- The pointer returned by the allocating call. -/
 def initPtr (a : Alloc) : PtrVal :=
   match a.target with
-  | .dyn => ⟨a.id, 0, false, false, .unit, .uns, .vtable⟩
+  | .dyn => ⟨a.id, 0, false, false, .unit, .uns, .vtable .dyn⟩
   | t => ⟨a.id, 0, false, false, t.pmeta, .orig, fatMeta t .orig⟩
 
 /-- The weak pointer a client holds to a value it allocated in an earlier callback and kept only
@@ -285,28 +293,46 @@ def PtrVal.words (p : PtrVal) : Nat :=
   | .none => 1
   | _ => 2
 
-/-! ### Values: what a dereference reads and what the release destructs -/
+/-! ### Values and headers: what a dereference reads and what the release destructs -/
 
 /-- Number of value tokens a value of the allocated type consists of: one per struct, one per
-    element / byte, none for a zero-sized value. -/
+    element / byte (plus the header value of a `SliceWithHeader`), none for a zero-sized value. -/
 def Target.elemCount : Target → Nat
   | .sized | .dyn => 1
   | .array n | .slice n | .str n => n
+  | .swh n => n + 1
   | .zst _ | .zcached _ _ => 0
 
-/-- A block with its contents: the allocation, the type the value was *constructed* as (`tyTag`),
-    its value tokens, and the drop glue `GcPtr::alloc` wrote into the header's vtable
-    (`VtableFor::<T, ..>::VTABLE.drop_value`) — the constructed type's.  `apply` takes only the
-    `Alloc`: no conversion can read or write `glue`, `tyTag` or `tokens`. -/
+/-- How many tokens a reference with length metadata `n` makes visible. -/
+def Target.visible (t : Target) (n : Nat) : Nat :=
+  match t with
+  | .swh _ => n + 1
+  | _ => n
+
+/-- The `GcHeader` + per-value metadata `GcPtr::alloc` writes in front of the value
+    (src/gc_ptr.rs, `GcPtr::alloc`): the vtable of the *constructed* type — its `drop_value`,
+    `trace_value` and `dealloc` entries rebuild the fat pointer from the header only
+    (`PtrProps::fat_ptr(TM::TYPE_METADATA, value_ptr)` reads `P::PtrMetadata` at `value_ptr −
+    META_HEADER_LAYOUT.size()`) — and, for `[E]` / `str` / `SliceWithHeader`, the length. -/
+structure Hdr where
+  glue : Nat
+  len : Option Nat
+  deriving DecidableEq, Repr
+
+/-- A block with its contents: the allocation, the type the value was *constructed* as, its
+    value tokens and its header.  `apply` takes only the `Alloc`: no conversion reads or writes a
+    `Stored`. -/
 structure Stored where
   alloc : Alloc
   tyTag : Nat
   tokens : List Nat
-  glue : Nat
+  hdr : Hdr
   deriving DecidableEq, Repr
 
-/-- The allocating call: the header's drop glue is that of the constructed type. -/
-def store (a : Alloc) (tyTag : Nat) (tokens : List Nat) : Stored := ⟨a, tyTag, tokens, tyTag⟩
+/-- The allocating call (`GcPtr::alloc::<TM, P>(ptr_meta)` + `write`): the header gets the
+    constructed type's vtable and the length the value was allocated with. -/
+def store (a : Alloc) (tyTag : Nat) (tokens : List Nat) : Stored :=
+  ⟨a, tyTag, tokens, ⟨tyTag, a.target.hdrLen⟩⟩
 
 /-- What a dereference yields. -/
 inductive View where
@@ -321,18 +347,21 @@ inductive View where
   deriving DecidableEq, Repr
 
 /-- `Deref for Gc<T, K>`: the reference is built from the stored address and the metadata
-    `as_ptr` reports (`derefMeta`); a length `n` makes exactly the first `n` elements visible.
-    `none`: a weak pointer (no `Deref`), a pointer that does not point at the value, or metadata
-    that does not fit the static type. -/
+    `as_ptr` reports (`derefMeta`).  It is a reference to the original value only if that metadata
+    is exactly the metadata of the static type for this allocation (`fatMeta`): the original
+    length, the constructed type's vtable.  `none`: a weak pointer (no `Deref`), a pointer that
+    does not point at the value, or metadata that does not fit — a lost, shortened or inflated
+    length, a foreign vtable. -/
 def deref (s : Stored) (p : PtrVal) : Option View :=
   if p.weak || p.obj != s.alloc.id || p.off != 0 then none else
+  if derefMeta s.alloc.target p != fatMeta s.alloc.target p.ty then none else
   match p.ty, derefMeta s.alloc.target p with
   | .unit, _ => some .unit
-  | .orig, .len n => some (.whole s.tyTag (s.tokens.take n))
+  | .orig, .len n => some (.whole s.tyTag (s.tokens.take (s.alloc.target.visible n)))
   | .orig, .none => some (.whole s.tyTag s.tokens)
-  | .orig, .vtable => none
+  | .orig, .vtable _ => none
   | .uns, .len n => some (.sliceOf (s.tokens.take n))
-  | .uns, .vtable => some (.dynOf s.tyTag s.tokens)
+  | .uns, .vtable _ => some (.dynOf s.tyTag s.tokens)
   | .uns, .none => none
 
 /-- The view of the whole original value at static type `ty`. -/
@@ -343,11 +372,31 @@ def fullView (s : Stored) : Ty → View
     | .array _ => .sliceOf s.tokens
     | _ => .dynOf s.tyTag s.tokens
 
-/-- The release of a block (`sweep_one` / `DropAll`): if the value is live, the drop glue found
-    in the header runs on the value.  Returns the block afterwards and what ran: (glue, tokens). -/
-def destruct (s : Stored) : Stored × Option (Nat × List Nat) :=
-  if s.alloc.live then ({ s with alloc := { s.alloc with live := false } }, some (s.glue, s.tokens))
-  else (s, none)
+/-- What the collector does when it destructs the block a pointer refers to (`sweep_one` /
+    `DropAll` → `GcPtr::drop_in_place` = `(header().vtable().drop_value)(ptr)`): it finds the header
+    `size_of::<GcHeader>()` bytes in front of the pointer's *address* — so the address must be the
+    value address — takes the drop glue from the header's vtable and the length from the header's
+    metadata slot, and runs that glue on the value.  The pointer's static type, kind and carried
+    metadata are not consulted (the collector only ever holds erased `GcPtr<()>`s).
+    Result: (glue that runs, tokens it destructs); `none`: no header at that address. -/
+def destructVia (s : Stored) (p : PtrVal) : Option (Nat × List Nat) :=
+  if p.obj != s.alloc.id || p.off != 0 then none else
+  match s.hdr.len with
+  | some n => some (s.hdr.glue, s.tokens.take (s.alloc.target.visible n))
+  | none => some (s.hdr.glue, s.tokens)
+
+/-- Counter-model (NOT what the implementation does): destruct through the *pointer*, as a
+    `Box<T>`-like owner would — glue of the pointer's static type (`()`: nothing to run; `dyn`: the
+    vtable's type), length from the metadata the pointer carries (a thin pointer carries none). -/
+def destructViaMeta (s : Stored) (p : PtrVal) : Option (Nat × List Nat) :=
+  if p.obj != s.alloc.id || p.off != 0 then none else
+  match p.ty, p.carried with
+  | .unit, _ => some (0, [])
+  | .orig, .len n => some (s.tyTag, s.tokens.take (s.alloc.target.visible n))
+  | .orig, .none => if s.alloc.target.isSized then some (s.tyTag, s.tokens) else some (s.tyTag, [])
+  | .uns, .len n => some (s.tyTag + 1, s.tokens.take n)      -- glue of `[E]`, not of `[E; n]`
+  | .uns, .vtable t => if t = s.alloc.target then some (s.tyTag, s.tokens) else none
+  | _, _ => none
 
 /-! ### All well-typed chains, in the order shared with the harness -/
 
